@@ -150,6 +150,11 @@ func mutateValue(v []byte, kind string, c *TamperCtx) ([]byte, bool) {
 		return setInt(new(big.Int).Lsh(c.Q, 1))
 	case "+q": // equivalent for scalars mod q — used only by the crash oracle
 		return setInt(new(big.Int).Add(x, c.Q))
+	case "+N":
+		if c.ModN == nil {
+			return nil, false
+		}
+		return setInt(new(big.Int).Add(x, c.ModN))
 	case "p":
 		return setInt(c.P)
 	case "p+x": // coordinate >= p congruent to the original
@@ -285,6 +290,62 @@ func ApplyTamper(wire []byte, spec *TamperSpec, c *TamperCtx) ([]byte, bool, err
 				return wire, false, nil
 			}
 			l.Set(spec.Index, protoreflect.ValueOfBytes(append([]byte{}, ov...)))
+		case "pt-identity", "pt-gen-other", "pt-neg", "pt-torsion1", "pt-torsion2", "pt-torsion4", "pt-torsion7", "pt-add-torsion1", "pt-add-torsion4", "pt-swapxy", "pt-x-plus-p":
+			// Index is the x coordinate of a point stored as two consecutive elements
+			i := spec.Index
+			if i < 0 || i+1 >= n {
+				return wire, false, nil
+			}
+			x := new(big.Int).SetBytes(l.Get(i).Bytes())
+			y := new(big.Int).SetBytes(l.Get(i + 1).Bytes())
+			var nx, ny *big.Int
+			switch {
+			case spec.Kind == "pt-identity":
+				nx, ny = big.NewInt(0), big.NewInt(0)
+				if c.EdCurve {
+					ny = big.NewInt(1)
+				}
+			case spec.Kind == "pt-gen-other":
+				if c.EdCurve {
+					nx, ny = Secp.gx, Secp.gy
+				} else {
+					nx, ny = Ed.gx, Ed.gy
+				}
+			case spec.Kind == "pt-neg":
+				if c.EdCurve {
+					nx, ny = new(big.Int).Sub(c.P, x), y
+				} else {
+					nx, ny = x, new(big.Int).Sub(c.P, y)
+				}
+			case spec.Kind == "pt-swapxy":
+				nx, ny = y, x
+			case spec.Kind == "pt-x-plus-p":
+				nx, ny = new(big.Int).Add(x, c.P), y
+			case strings.HasPrefix(spec.Kind, "pt-torsion"):
+				if !c.EdCurve {
+					return wire, false, nil
+				}
+				var k int
+				fmt.Sscanf(spec.Kind, "pt-torsion%d", &k)
+				t := EdTorsion()[k%8]
+				nx, ny = t.X, t.Y
+			case strings.HasPrefix(spec.Kind, "pt-add-torsion"):
+				if !c.EdCurve {
+					return wire, false, nil
+				}
+				var k int
+				fmt.Sscanf(spec.Kind, "pt-add-torsion%d", &k)
+				s := Ed.Add(Pt{X: x, Y: y}, EdTorsion()[k%8])
+				nx, ny = s.X, s.Y
+			}
+			enc := func(v *big.Int) []byte {
+				if v.Sign() == 0 {
+					return []byte{0}
+				}
+				return v.Bytes()
+			}
+			l.Set(i, protoreflect.ValueOfBytes(enc(nx)))
+			l.Set(i+1, protoreflect.ValueOfBytes(enc(ny)))
 		case "other-all": // the whole list of the other party
 			if c.Other == nil {
 				return wire, false, nil
